@@ -24,6 +24,7 @@ type gpass struct {
 	flagSeen  map[string]bool
 	testsDir  string
 	infoByPath map[string]*types.Info
+	modifier  bool // output of -genmode modifier
 
 	// per-verification context
 	cur     *closureCtx
@@ -96,6 +97,12 @@ func (g *gpass) configure() {
 			return vc.ModeOpaque
 		}
 		return vc.ModeOpaque
+	}
+	if g.modifier {
+		// A-args-non-nil: the values a modifier-mode implementation receives from
+		// its m<pos>() parameters are the directive's own arguments; a nil Results
+		// target or task function panics in every generation mode alike
+		x.NonNilResult = func(name string) bool { return strings.HasPrefix(name, "dynamic m") }
 	}
 	x.FuncLabel = func(fn *ssa.Function) string {
 		if g.cur != nil {
